@@ -1536,7 +1536,15 @@ func (vc *VC) checkCaptured(fr *Frame, st *State, reach string, mc *ssa.MakeClos
 				continue
 			}
 			env := vc.envFor(fr, st)
+			selfV := fr.regs[mc]
+			env = env.push("self", selfV)
+			// captured(f, v) inside the clause may refer to closures held in captured variables of the new closure
 			g := vc.safeTr(fr, func() string { return env.trBool(c.E) }, c.Src)
+			if c.Free {
+				vc.assumeG(reach, g)
+				vc.trusted["definitional clause of closure "+key+": "+c.Src] = true
+				continue
+			}
 			name := c.Name
 			if name == "" {
 				name = fmt.Sprint(i + 1)
